@@ -34,6 +34,7 @@ def cases(tier):
     return st.one_of(
         c01.vector_case(COLR1, tier, lib_always=True, place_classes=CLASSES, lib_prob=0.85, p_grad=0.2),
         c01.vector_case(COLR1, tier, p_grad=0.2),
+        c01.grid_case(COLR1, tier),
     )
 
 
